@@ -394,27 +394,26 @@ def class_map(text):
 
 
 def replay_loop(w):
-    """Natively: templates of the witness' kind (a tag of the matched branch preceded by the witness text, in the witness'
-    configuration family) through the REAL Environment.lex; oracle = the property's own: the token values tile the
-    working source with only the documented left-hand whitespace missing, and every lineno is a direct count."""
-    kw = dict(RF.delimiter_families().get(w["family"] + "/trim=0,lstrip=0", {}))
-    cases = []
-    text = class_map((w.get("pieces") or [""])[0]) if w.get("pieces") else ""
-    sign = w.get("sign", "")
-    for lstrip in {w["lstrip_blocks"], True}:
-        for trim in (False, True):
-            env = jinja2.Environment(**dict(kw, lstrip_blocks=lstrip, trim_blocks=trim))
-            bs, be, vs, ve, cs, ce = (env.block_start_string, env.block_end_string, env.variable_start_string,
-                                      env.variable_end_string, env.comment_start_string, env.comment_end_string)
-            tags = [bs + sign + " set q = 1 " + be, cs + sign + " c\nd " + ce, vs + sign + " 1 " + ve,
-                    bs + sign + " raw " + be + text + bs + sign + " endraw " + be, vs + " [1,\n(2)] " + ve]
-            for tag in tags:
-                for pre in ("", vs + " 0 " + ve, "a\n"):
-                    src = pre + text + tag + "\n" + text + tag + "|\n x"
-                    bad = lex_oracle(env, src)
-                    if bad:
-                        cases.append(bad)
-    return (bool(cases), "; ".join(cases[:3]) if cases else "the real Environment.lex is lossless and line-accurate on the witness' templates")
+    """Natively: the extended skeleton corpus (all N <= 1, 3000 seeded N = 2; tags with every modifier, multi-line tags, raw blocks)
+    in the witness' delimiter family and in the default one, under the four trim/lstrip settings, through the REAL
+    Environment.lex; oracle = the property's own: the token values tile the working source minus exactly the whitespace the
+    documented left-hand rules remove (C12 reference model), and every lineno is a direct count."""
+    fams = ["default"] + ([w["family"]] if w.get("family") in ("asp", "dollar", "shared") else [])
+    n = 0
+    for fam in fams:
+        for ids in X.family_sample(0, n2=3000):
+            for setting in X.SETTINGS:
+                src, bad = lex_case(ids, setting, fam)
+                n += 1
+                if bad:
+                    return (True, f"{fam} delimiters, trim_blocks={setting[0]} lstrip_blocks={setting[1]}, source {src!r}: {bad}")
+    if w.get("family", "").startswith("line"):
+        env = jinja2.Environment(line_statement_prefix="#", line_comment_prefix="##", lstrip_blocks=w.get("lstrip_blocks", False))
+        for src in ("a\n# set q = 1\nb ## c\n  # set r =\\\n 2\n{{ q }}\n", "## c\n#- set q = 1\nx"):
+            bad = lex_oracle(env, src)
+            if bad:
+                return (True, bad)
+    return (False, f"the real Environment.lex is lossless and line-accurate on {n} corpus sources")
 
 
 def lex_oracle(env, src, removed_ok=None):
@@ -1006,7 +1005,7 @@ def lex_case(ids, setting, fam="default"):
     kw = RF.delimiter_families()[fam + "/trim=0,lstrip=0"]
     key = (fam, setting)
     if key not in _lex_envs:
-        _lex_envs[key] = (jinja2.Environment(**dict(kw, trim_blocks=setting[0], lstrip_blocks=setting[1])), X.tag_variants(X.delims_of(kw)))
+        _lex_envs[key] = (jinja2.Environment(**dict(kw, trim_blocks=setting[0], lstrip_blocks=setting[1])), X.tag_variants(X.delims_of(kw), extended=True))
     env, tags = _lex_envs[key]
     parts = X.skeleton(*ids, tags=tags)
     src = X.source_of(parts)
@@ -1027,7 +1026,7 @@ def bounded_lex(shard):
         t0 = time.time()
         n, out = 0, []
         work = [("default", ids) for ids in X.corpus_sample(tier, seed, shard, NSHARDS)]
-        fams = ("asp", "dollar", "shared")
+        fams = ("default", "asp", "dollar", "shared")
         if shard < len(fams):
             work += [(fams[shard], ids) for ids in X.family_sample(seed)]
         for fam, ids in work:
@@ -1056,7 +1055,7 @@ def bounded_tasks():
     ts = []
     for k in range(NSHARDS):
         t = FnTask(PROP, f"C39.bounded.lex[{k}]", bounded_lex(k), kind="bounded", replay_fn=replay_lex)
-        t.bound_text = X.CORPUS_BOUND + f" (shard {k} of {NSHARDS})" + ("; plus " + X.FAMILY_BOUND if k < 3 else "")
+        t.bound_text = X.CORPUS_BOUND + f" (shard {k} of {NSHARDS})" + ("; plus " + X.FAMILY_BOUND if k < 4 else "")
         ts.append(t)
     return ts
 
